@@ -246,6 +246,24 @@ func c01run(idx int) run.Result {
 			res.Violate("C01d:int:frame", "NewIntegerMessage encodes to one strict value", bad, c.i)
 		} else if n, err := strconv.ParseInt(string(v.B), 10, 64); v.K != ':' || err != nil || n != c.i {
 			res.Violate("C01d:int:value", "NewIntegerMessage(i) decodes to i", fmt.Sprintf("i=%d decoded %s", c.i, v), c.i)
+		} else {
+			// and through the library's own decoding: parse the bytes and read the integer back (as a reply, and
+			// as a bulk-string argument of a request, the way command arguments are read)
+			enc, _ := redis.NewIntegerMessage(int(c.i)).RESPBytes()
+			if m, err := proto.NewParserWithBytes(enc).Next(); err != nil || m == nil {
+				res.Violate("C01d:int:parse", "NewIntegerMessage(i) decodes to i", fmt.Sprintf("i=%d: parse of %q: %v", c.i, enc, err), c.i)
+			} else if n, err := m.Integer(); err != nil || int64(n) != c.i {
+				res.Violate("C01d:int:accessor", "NewIntegerMessage(i) decodes to i", fmt.Sprintf("i=%d: Message.Integer() = %d, %v", c.i, n, err), c.i)
+			} else if a, err := proto.NewParserWithBytes(resp.Encode(resp.Cmd("X", strconv.FormatInt(c.i, 10)))).Next(); err != nil || a == nil {
+				res.Violate("C01d:int:parse", "NewIntegerMessage(i) decodes to i", fmt.Sprintf("i=%d as an argument: %v", c.i, err), c.i)
+			} else if arr, err := a.Array(); err != nil {
+				res.Violate("C01d:int:parse", "NewIntegerMessage(i) decodes to i", fmt.Sprintf("i=%d as an argument: %v", c.i, err), c.i)
+			} else {
+				arr.Next()
+				if n, err := arr.NextInteger(); err != nil || int64(n) != c.i {
+					res.Violate("C01d:int:argument", "an integer argument decodes to the integer it spells", fmt.Sprintf("i=%d: Array.NextInteger() = %d, %v", c.i, n, err), c.i)
+				}
+			}
 		}
 	case "float":
 		res.Classes = []string{"ctor-float"}
